@@ -20,7 +20,7 @@
 //!   grid/recursion        a section whose text contains `grid_search` is not answered by `Err`
 //!   grid/section-type     a section that is not an object is not answered by `Err`
 //!   grid/rejected         a well-formed grid section was rejected
-//!   grid/panic            the plugin panicked (any input)
+//!   grid/panic            the plugin panicked (any other input; on a degenerate section: grid/degenerate)
 //!   multiset/count, multiset/duplicate, multiset/range   MultiSet over index sets
 //!   pipeline/expansion    apply_input_plugins does not return exactly the plugin's expansion
 use crate::ctx::Ctx;
@@ -102,6 +102,11 @@ fn call_plugin_forked(q: &Value) -> Real {
         }
         if pid == 0 {
             libc::close(fds[0]);
+            // the child's allocation-failure backtraces are noise
+            let devnull = libc::open(b"/dev/null\0".as_ptr() as *const libc::c_char, libc::O_WRONLY);
+            if devnull >= 0 {
+                libc::dup2(devnull, 2);
+            }
             let lim = libc::rlimit { rlim_cur: 2 << 30, rlim_max: 2 << 30 };
             libc::setrlimit(libc::RLIMIT_AS, &lim);
             libc::alarm(10);
@@ -293,7 +298,8 @@ fn collision_free(rest: &Map<String, Value>, axes: &[(&String, &Vec<Value>)]) ->
 }
 
 fn oracle_proc(ctx: &mut Ctx, idx: usize, q: &Value, real: &Real) {
-    if let Real::Panic = real {
+    if matches!(real, Real::Panic) && !matches!(shape(q), Shape::Degenerate { .. }) {
+        // (a panic on a degenerate section is reported under grid/degenerate below)
         ctx.fail(idx, "grid/panic", format!("GridSearchPlugin::process panicked on {}", q));
     }
     match shape(q) {
@@ -633,7 +639,10 @@ fn pipe_case(ctx: &mut Ctx, q: &Value) {
                     ctx.fail(idx, "pipeline/expansion", format!("error response does not carry the request: {}", resp));
                 }
             }
-            (Real::Panic, _) | (_, Err(_)) => ctx.fail(idx, "grid/panic", format!("pipeline panicked on {}", q)),
+            (Real::Panic, _) | (_, Err(_)) => {
+                let key = if matches!(shape(q), Shape::Degenerate { .. }) { "grid/degenerate" } else { "grid/panic" };
+                ctx.fail(idx, key, format!("pipeline panicked on {}", q))
+            }
             _ => ctx.fail(idx, "pipeline/expansion", format!("pipeline and plugin disagree on {}", q)),
         }
     }
